@@ -1,6 +1,6 @@
 SPECIFICATION Spec
 CONSTANTS
-  Meshes <- MeshesBig
+  Meshes <- MeshesSim
   EmitMode = "all"
 VIEW View
 INVARIANT Emit
